@@ -149,6 +149,33 @@ def havoc_for_loop(ev: Ev, body_stmts, extra_names=(), loop_no=0):
                         pass
                 elif isinstance(n.func, ast.Name):
                     fv = frame.lookup(n.func.id)
+                    if fv is None:
+                        fv = try_eval(n.func)
+                    if isinstance(fv, VFunc) and fv.kind == "repo" and ev.registry is not None:
+                        cc0 = ev.registry.contract_for(fv.data[0], fv.data[1])
+                        if cc0 is not None and cc0.inline and cc0.ghost_modifies:
+                            ghost_mods.update(cc0.ghost_modifies)   # declared effect of an inlined helper
+                            continue
+                    # effects of callables passed as arguments (e.g. the server's `send` handed to a helper)
+                    for a in n.args:
+                        av = try_eval(a) if isinstance(a, (ast.Name, ast.Attribute)) else None
+                        if isinstance(av, VFunc) and av.kind == "py":
+                            ghost_mods.update(getattr(av.data, "mods", ()) or ())
+                    if isinstance(fv, VFunc) and fv.kind == "contract":
+                        cc = fv.data[0]
+                        ghost_mods.update(cc.ghost_modifies)
+                        fdef_params = list(cc.params)
+                        for pth in cc.modifies:
+                            root = pth.split(".")[0]
+                            if root in fdef_params and fdef_params.index(root) < len(n.args):
+                                note_obj(try_eval(n.args[fdef_params.index(root)]))
+                    if isinstance(fv, VFunc) and fv.kind == "repo" and ev.registry is not None:
+                        cc = ev.registry.contract_for(fv.data[0], fv.data[1])
+                        if cc is not None and cc.inline and depth < 3:
+                            from . import source as _src
+                            fd_ = _src.find_def(fv.data[0], fv.data[1])
+                            scan([x for s_ in fd_.body for x in _walk_in_order_block(s_)], depth + 1)
+                            continue
                     if isinstance(fv, VFunc) and fv.kind == "closure" and depth < 3:
                         fnode = fv.data[0]
                         names.update(_closure_effects(ev, fnode, set()))
